@@ -45,7 +45,7 @@ class CardMonitor:
 
     def __init__(self, ctx: Any, exact: bool) -> None:
         self.ctx, self.exact = ctx, exact
-        self.prev_reserve = 0
+        self.prev_reserve: set = set()
         self.prev_deck = None
 
     def __call__(self, st: Any, op: Any) -> None:
@@ -62,13 +62,15 @@ class CardMonitor:
                       lambda: f'after {type(op).__name__}: missing {missing} extra {extra}')
         name = type(op).__name__
         # known cards only: unknown placeholders ('??') are not tracked individually
-        reserve = (len([c for c in st.burn_cards if c]) + len([c for c in st.mucked_cards if c])
-                   + sum(len([c for c in d if c]) for d in st.discarded_cards))
+        reserve = set(c for c in st.burn_cards if c) | set(c for c in st.mucked_cards if c)
+        for d in st.discarded_cards:
+            reserve |= set(c for c in d if c)
         if name in ('CardBurning', 'HoleDealing', 'BoardDealing') and self.prev_deck is not None:
             need = 1 if name == 'CardBurning' else len(op.cards)
-            grew = 1 if (name == 'CardBurning' and op.card) else 0
-            if reserve < self.prev_reserve + grew:
-                # reserves were recycled into the deck: only allowed when the deck was short
+            # recycling = a card of the reserve went back INTO THE DECK (a reserve card named explicitly by the
+            # caller moves straight to a hand/board: that is a move, not a replenishment)
+            back = [c for c in self.prev_reserve if c in st.deck_cards]
+            if back:
                 ctx.check(self.prev_deck < need, 'replenished-although-deck-not-exhausted',
                           lambda: f'{name}: deck had {self.prev_deck}, needed {need}')
                 ctx.cover('replenished')
@@ -224,7 +226,8 @@ def h_deal(ctx: Any, code: str, n: int, sym_decisions: int = 2, manual: str = 'c
            stacks: Any = None, streets: str = '', explicit: bool = False, deck: str = 'identity',
            mode: str = 'T', draw_masks: bool = True, which: str = 'both', mask_budget: int = 3,
            fixed_mask: int = 0, count_budget: int = 4, partial_show: bool = False, runouts: int = 0,
-           explicit_dealee: bool = False, warn: str = '') -> None:
+           explicit_dealee: bool = False, warn: str = '', hole_kind_budget: int = 99,
+           forced_folds: int = 0, ask_budget: int = 10 ** 6) -> None:
     C.native_hands()
     C.set_deck_order(deck)
     warnings.simplefilter(warn or ('error' if explicit else 'ignore'))
@@ -265,9 +268,13 @@ def h_deal(ctx: Any, code: str, n: int, sym_decisions: int = 2, manual: str = 'c
         # first street is announced from the street tuple before construction
         st = C.call(ctx, C.make_state, code, cfg)
         decisions = 0
+        folds_done = 0
         guard = 0
         street_seen = -1
-        budget = {'mask': mask_budget, 'count': count_budget}
+        def ask() -> bool:
+            budget['ask'] -= 1
+            return budget['ask'] >= 0
+        budget = {'ask': ask_budget, 'mask': mask_budget, 'count': count_budget, 'hole_kind': hole_kind_budget}
         while st.status:
             guard += 1
             ctx.check(guard < 600, 'no-termination')
@@ -303,7 +310,9 @@ def h_deal(ctx: Any, code: str, n: int, sym_decisions: int = 2, manual: str = 'c
                     left = len(st.hole_dealing_statuses[i])
                     if explicit:
                         # the last seat always gets engine-chosen (known) cards, so somebody can show
-                        kind = ctx.choice(f'hk{guard}', 4 if warn == 'ignore' else 3) if i != n - 1 else 0
+                        kind = (ctx.choice(f'hk{guard}', 4 if warn == 'ignore' else 3)
+                                if i != n - 1 and budget['hole_kind'] > 0 else 0)
+                        budget['hole_kind'] -= 1
                         if kind == 0:
                             C.call(ctx, st.deal_hole)
                         elif kind == 1:
@@ -333,7 +342,26 @@ def h_deal(ctx: Any, code: str, n: int, sym_decisions: int = 2, manual: str = 'c
                         C.call(ctx, st.deal_hole)
                 else:
                     left = st.board_dealing_count
-                    if manual == 'counts' and left > 1 and budget['count'] > 0:
+                    bk = ctx.choice(f'bk{guard}', 3 if warn == 'ignore' else 2) if explicit else 0
+                    known_burns = [c for c in st.burn_cards if c]
+                    if bk == 2 and known_burns and len(st.deck_cards) >= left:
+                        # the board named explicitly and containing the card just burnt (only warned about):
+                        # the card must MOVE from the burn pile to the board
+                        C.call(ctx, st.deal_board, tuple([known_burns[-1]] + list(st.deck_cards)[-(left - 1):][:left - 1]))
+                        ctx.cover('burnt-card-on-board')
+                    elif bk >= 1 and len(st.deck_cards) < left:
+                        # the deck cannot cover the street: deck AND reserve are dealable (no warning); the caller
+                        # names reserve cards first (burns, then the muck), the rest from the deck
+                        pool = [c for c in list(st.burn_cards) + list(st.mucked_cards) + list(st.deck_cards) if c]
+                        if len(pool) >= left:
+                            C.call(ctx, st.deal_board, tuple(pool[:left]))
+                            ctx.cover('explicit-board-from-reserve')
+                        else:
+                            C.call(ctx, st.deal_board)
+                    elif bk >= 1 and len(st.deck_cards) >= left:
+                        C.call(ctx, st.deal_board, tuple(list(st.deck_cards)[-left:]))
+                        ctx.cover('explicit-board')
+                    elif manual == 'counts' and left > 1 and budget['count'] > 0:
                         budget['count'] -= 1
                         C.call(ctx, st.deal_board, 1 + ctx.choice(f'bc{guard}', left))
                     else:
@@ -368,11 +396,14 @@ def h_deal(ctx: Any, code: str, n: int, sym_decisions: int = 2, manual: str = 'c
             if st.actor_index is not None:
                 if st.can_post_bring_in():
                     C.call(ctx, st.post_bring_in)
-                elif decisions < sym_decisions and st.can_fold() and ctx.flag(f'fold{guard}'):
+                elif forced_folds > folds_done and st.can_fold():
+                    folds_done += 1
+                    C.call(ctx, st.fold)
+                elif decisions < sym_decisions and st.can_fold() and ask() and ctx.flag(f'fold{guard}'):
                     decisions += 1
                     C.call(ctx, st.fold)
                 elif decisions < sym_decisions and st.can_complete_bet_or_raise_to() and not st.can_fold() \
-                        and ctx.flag(f'bet{guard}'):
+                        and ask() and ctx.flag(f'bet{guard}'):
                     decisions += 1
                     C.call(ctx, st.complete_bet_or_raise_to)
                 else:
@@ -441,6 +472,8 @@ JOBS = [
     ('NT/n3/flop-allin/3-runouts', dict(code='NT', n=3, sym_decisions=0, manual='auto', stacks=(5, 5, 5), mode='C', runouts=3)),
     ('F7S/n2/named-dealee', dict(code='F7S', n=2, sym_decisions=0, manual='one', explicit_dealee=True)),
     ('NT/n3/named-dealee', dict(code='NT', n=3, sym_decisions=0, manual='one', explicit_dealee=True)),
+    ('NR/n9/explicit/exhaustion', dict(code='NR', n=9, sym_decisions=3, manual='one', explicit=True, mode='C',
+                                       hole_kind_budget=2, forced_folds=2, ask_budget=4)),
     ('NT/n2/explicit', dict(code='NT', n=2, sym_decisions=0, manual='one', explicit=True, mode='C')),
 ]
 
@@ -456,6 +489,10 @@ def _jobs(tier: str, which: str) -> list[dict]:
         cover = ['done']
         if 'partial-show' in name:
             cover.append('partial-show')
+        if p.get('explicit'):
+            cover.append('explicit-board-from-reserve' if 'exhaustion' in name else 'explicit-board')
+        if p.get('warn') == 'ignore':
+            cover.append('burnt-card-on-board')
         if 'exhaustion' in name:
             cover.append('replenished' if which == 'cards' else ('fallback' if 'n8' in name else 'draw'))
         out.append(dict(name=name, module='harness.c06', fn='h_deal', traced=False,
